@@ -143,6 +143,7 @@ func runC11(p *core.Prog, r *core.Report) {
 	r.Guard("C11.R4", "deltas", "delta construction", func() { checkDeltaConstruction(p, r, "C11.R4") })
 
 	// ---- R5 limit test after growth
+	r.Guard("C11.R5", "Merge/limit", "limit test after a merge", func() { checkMergeLimit(p, r, "C11.R5") })
 	r.Guard("C11.R5", "ApplyDelta/limit", "limit test", func() {
 		fn := p.Func(pkgStore, "baseStore.ApplyDelta")
 		sz := size()
